@@ -471,6 +471,15 @@ static const addrxlat_addrspace_t map_expect_as[ADDRXLAT_SYS_MAP_NUM] =
 	[ADDRXLAT_SYS_MAP_KPHYS_MACHPHYS] = ADDRXLAT_KPHYSADDR,
 };
 
+/** Maximum nesting depth of @ref addrxlat_op.
+ * A translation may have to read target memory (page tables, memory
+ * arrays) at an address which needs another translation first. Sane
+ * systems need only a few levels. Recursion which produces a new address
+ * at every level is not caught by the in-flight check, so the depth must
+ * be limited to protect the stack.
+ */
+#define MAX_OP_DEPTH	16
+
 /**  In-flight translation.
  * This is used to detect infinite recursion.
  * @sa addrxlat_op
@@ -554,6 +563,7 @@ addrxlat_op(const addrxlat_op_ctl_t *ctl, const addrxlat_fulladdr_t *paddr)
 	struct inflight inflight, *pif;
 	const struct xlat_chain *chain;
 	addrxlat_status status;
+	unsigned depth;
 
 	clear_error(ctl->ctx);
 
@@ -595,12 +605,18 @@ addrxlat_op(const addrxlat_op_ctl_t *ctl, const addrxlat_fulladdr_t *paddr)
 
 	inflight.faddr = *paddr;
 	inflight.chain = chain;
-	for (pif = ctl->ctx->inflight; pif; pif = pif->next)
+	depth = 0;
+	for (pif = ctl->ctx->inflight; pif; pif = pif->next) {
 		if (pif->faddr.addr == inflight.faddr.addr &&
 		    pif->faddr.as == inflight.faddr.as &&
 		    pif->chain == inflight.chain)
 			return set_error(ctl->ctx, ADDRXLAT_ERR_NOMETH,
 					 "Infinite recursion loop");
+		++depth;
+	}
+	if (depth >= MAX_OP_DEPTH)
+		return set_error(ctl->ctx, ADDRXLAT_ERR_NOMETH,
+				 "Translation nesting too deep");
 	inflight.next = ctl->ctx->inflight;
 	ctl->ctx->inflight = &inflight;
 
